@@ -71,7 +71,8 @@ class Universe:
             self.absent_key = "zz"
             if name == "typed_tuple":
                 self.typed = (tuple, str)
-                self.bad = [("wrong_key_type", lambda: (5, 0), "type"), ("wrong_item_type", lambda: ["q", 0], "type")]
+                # (the last one carries the key of a legitimate item: as a replacement of that item it is not a duplicate, only ill-typed)
+                self.bad = [("wrong_key_type", lambda: (5, 0), "type"), ("wrong_item_type", lambda: ["q", 0], "type"), ("wrong_item_type_existing_key", lambda: ["a", 0], "type")]
         elif name == "listitems":
             self.specs = [(k, p) for k in "abc" for p in (0, 1)]
             self.make = lambda s: [s[0], s[1]]
@@ -103,7 +104,13 @@ class Universe:
             self.absent_key = "zz"
             if name == "typed_spec":
                 self.typed = (KLeaf, str)
-                self.bad = [("wrong_item_type", lambda: "plainstr", "type"), ("wrong_item_type2", lambda: IntLeaf(4), "type")]
+
+                @spec_class(key="k", bootstrap=True)
+                class OtherLeaf:  # same shape and key type as the item class, but not an instance of it
+                    k: str
+                    v: int = 0
+
+                self.bad = [("wrong_item_type", lambda: "plainstr", "type"), ("wrong_item_type2", lambda: IntLeaf(4), "type"), ("wrong_item_type_existing_key", lambda: OtherLeaf("a"), "type")]
         else:
             raise ValueError(name)
         self.keys = []
@@ -140,6 +147,7 @@ FAMILIES = {
     "missing": (IndexError, KeyError, ValueError),
     "dup": (ValueError,),
     "type": (TypeError,),
+    "type_or_dup": (TypeError, ValueError),
     "unsupported": (Exception,),
 }
 
@@ -154,6 +162,12 @@ def m_find_key(L, kf, key):
 def m_check_new(U, L, x, bad_family, replacing=None):
     """Raise what inserting x into L (optionally replacing index `replacing`) must raise."""
     if bad_family:
+        try:
+            k = U.kf(x)
+        except Exception:
+            k = None
+        if k is not None and any(i != replacing and U.kf(it) == k for i, it in enumerate(L)):
+            raise Raise("type_or_dup")  # wrong type *and* a duplicate key: either rejection will do
         raise Raise(bad_family)
     k = U.kf(x)
     for i, it in enumerate(L):
